@@ -36,6 +36,19 @@ class Sched:
 
     # ---- called by worker threads
     def _yield(self, tid, where):
+        # fast path: the schedule says "this thread keeps the baton" (a ['run', tid] entry, or the schedule is used up
+        # and this is the lowest runnable thread): nobody else can be running, so no hand-over and no locking
+        pos, sched = self.pos, self.schedule
+        if pos < len(sched):
+            e = sched[pos]
+            keep = isinstance(e, (list, tuple)) and e[1] == tid
+        else:
+            keep = all(t >= tid or t in self.blocked for t in self.alive)
+        if keep and self.current == tid and tid not in self.blocked:
+            self.steps += 1
+            if len(self.trace) < self.max_trace:
+                self.trace.append((tid, where))
+            return
         with self.cv:
             self.steps += 1
             if len(self.trace) < self.max_trace:
